@@ -19,6 +19,18 @@ abbrev Time := Int × Int × Int × Int × Int × Int   -- y m d h mi s
 def ofTime (E : Eph) (t : Time) : Option EightChar :=
   (ofSolarTime E t.1 t.2.1 t.2.2.1 t.2.2.2.1 t.2.2.2.2.1 t.2.2.2.2.2).map fun v => ⟨v.year, v.month, v.day, v.hour⟩
 
+/-- The route `SolarTime::get_lunar_hour().get_eight_char()` literally: the instant's civil date is converted to its lunar
+date and BACK (`LunarHour::get_solar_time` → `LunarDay::get_solar_day`), and the pillars are those of the instant on the
+date that comes back. Wherever the lunar round trip is the identity (C02: every date outside the D4 junction windows) this
+is `ofTime`; inside those windows the date that comes back is one lunation off and the code's answer follows it. -/
+def ofTimeViaLunar (E : Eph) (t : Time) : Option EightChar :=
+  match Lunar.ofSolar E t.1 t.2.1 t.2.2.1 with
+  | none => none
+  | some (x, k) =>
+    match Lunar.daySolar E x k with
+    | none => none
+    | some sd => ofTime E (sd.1, sd.2.1, sd.2.2, t.2.2.2.1, t.2.2.2.2.1, t.2.2.2.2.2)
+
 def ceilDiv60 (a : Int) : Int := (a + 59) / 60     -- ((a as f64) / 60.0).ceil() for a > 0
 
 /-- candidate instants for one 60-year step y: `none` = the code panics -/
